@@ -102,6 +102,7 @@ Definition check (c : pcase) : bool :=
   match init_pstate c with
   | None => false
   | Some st0 =>
+      disk_okb (pc_table c) (pc_disk c) &&
       open_consistent c &&
       match paccept_run (pc_table c) st0 (pc_events c) with Some _ => true | None => false end &&
       forallb (check_probe c st0) (pc_probes c)
